@@ -10,7 +10,11 @@ def call_watcher_outcome(ctx, trig, onlychanged, changed, batch, prequeued="none
     cw = ctx.repo.func(P + "Parameters._call_watcher")
     w = Obj("watcher", onlychanged=onlychanged, queued=queued)
     other = Obj("other_watcher", onlychanged=onlychanged, queued=False)
-    pre = {"none": [], "same": [w], "other": [other]}[prequeued]
+    # "twin": a second, separate registration with equal fields (Watcher is a namedtuple: it compares equal)
+    twin = Obj("equal_twin_watcher", onlychanged=onlychanged, queued=queued)
+    w.attrs["__eqclass__"] = twin.attrs["__eqclass__"] = "same-fields"
+    other.attrs["__eqclass__"] = "other-fields"
+    pre = {"none": [], "same": [w], "other": [other], "twin": [twin]}[prequeued]
     ns = Obj("ns", _TRIGGER=trig, _BATCH_WATCH=batch, _events=[], _state_watchers=list(pre), self_or_cls=Obj("owner"))
     holder = {}
 
@@ -25,7 +29,7 @@ def call_watcher_outcome(ctx, trig, onlychanged, changed, batch, prequeued="none
         if name == "_batch_call_watchers":
             return Obj("scope")
         return NotImplemented
-    it = Interp(ctx.hier, call_hook=hook)
+    it = Interp(ctx.hier, call_hook=hook, strict_self_calls=True)
     holder["it"] = it
     try:
         outs = it.run_all(cw, {"self_": ns, "watcher": w, "event": Obj("event")})
